@@ -7,7 +7,7 @@ import (
 // C07 (safety lemmas the liveness statement presupposes; the timed convergence itself needs real
 // timers and two parties and is outside what the encoding reaches).
 
-//verif: replay=none unwind=130 cover=fresh-traffic bounds="keep-alive: any established channel (quick: only the current slot occupied) whose current session delivers authenticated data at some instant; expiry evaluated at any later instant within KeepAliveTimeout: the current session is kept (symbolic non-decreasing clock)"
+// verif: replay=none unwind=130 cover=fresh-traffic bounds="keep-alive: any established channel (quick: only the current slot occupied) whose current session delivers authenticated data at some instant; expiry evaluated at any later instant within KeepAliveTimeout: the current session is kept (symbolic non-decreasing clock)"
 func VH_C07_keepAlive() bool {
 	e := vChannel()
 	c := e.c
@@ -38,7 +38,7 @@ func VH_C07_keepAlive() bool {
 	return true
 }
 
-//verif: replay=none cover=a-keeps,b-keeps bounds="simultaneous initiation tie-break: for any two distinct session ids (2 symbolic leading bytes) exactly one side keeps the session it initiated"
+// verif: replay=none cover=a-keeps,b-keeps bounds="simultaneous initiation tie-break: for any two distinct session ids (2 symbolic leading bytes) exactly one side keeps the session it initiated"
 func VH_C07_tieBreak() bool {
 	var a, b [32]byte
 	a[0], a[1] = vByte(), vByte()
@@ -62,7 +62,7 @@ func VH_C07_tieBreak() bool {
 	return aKeeps != bKeeps
 }
 
-//verif: replay=none cover=current-expired,nothing-expired bounds="expireSessions at any instant from any invariant state with symbolic session expiry times and last-received time: slot invariant preserved, the ready signal is re-armed when the current slot is vacated, no close of a closed channel"
+// verif: replay=none cover=current-expired,nothing-expired bounds="expireSessions at any instant from any invariant state with symbolic session expiry times and last-received time: slot invariant preserved, the ready signal is re-armed when the current slot is vacated, no close of a closed channel"
 func VH_C07_expirePreservesInvariant() bool {
 	e := vChannel()
 	c := e.c
